@@ -391,7 +391,7 @@ func (obj *Real32) UnmarshalJSON(data []byte) error {
   if err := json.Unmarshal(data, &r); err == nil {
     obj.Value = r.Value
     if len(r.Derivative) != 0 && len(r.Hessian) != 0 {
-      if len(r.Derivative) != len(r.Derivative) {
+      if len(r.Derivative) != len(r.Hessian) {
         return fmt.Errorf("invalid json scalar representation")
       }
       obj.Alloc(len(r.Derivative), 2)
@@ -403,7 +403,7 @@ func (obj *Real32) UnmarshalJSON(data []byte) error {
       obj.Derivative = r.Derivative
     } else
     if len(r.Derivative) == 0 && len(r.Hessian) != 0 {
-      obj.Alloc(len(r.Derivative), 2)
+      obj.Alloc(len(r.Hessian), 2)
       obj.Hessian = r.Hessian
     }
     return nil
